@@ -420,6 +420,21 @@ def verify_unit(unit, repo, workdir, keep=False):
         out["undecided"].append("lost anchor: %s" % e)
         out["wall_s"] = time.time() - t0
         return out
+    # Verus is deterministic on identical input: results are cached by the hash of the assembled text (which contains the
+    # code just extracted from the repo), so units shared by several properties are verified once per source state.
+    import hashlib
+    key = hashlib.sha256(("v3|" + asm.text() + "|" + asm_c.text() + "|" + repr(unit.get("rlimit")) + repr(unit.get("rlimit_retry")) + repr(unit.get("verus_args"))).encode()).hexdigest()
+    cdir = os.environ.get("VERIF_UNIT_CACHE", os.path.join(os.path.dirname(os.path.dirname(os.path.abspath(__file__))), ".cache", "units"))
+    cpath = os.path.join(cdir, "%s-%s.json" % (unit["name"], key[:32]))
+    if os.environ.get("VERIF_NO_CACHE") != "1" and os.path.exists(cpath):
+        try:
+            with open(cpath) as f:
+                cached = json.load(f)
+            cached["cache_hit"] = True
+            cached["wall_s"] = time.time() - t0
+            return cached
+        except (OSError, ValueError):
+            pass
     path = os.path.join(workdir, "%s.rs" % unit["name"])
     with open(path, "w") as f:
         f.write(asm.text())
@@ -481,6 +496,15 @@ def verify_unit(unit, repo, workdir, keep=False):
             out["undecided"].append("VACUOUS: assert(false) verified at " + ", ".join(vac))
         out["wall_canary_s"] = resc["wall_s"]
     out["wall_s"] = time.time() - t0
+    out["cache_hit"] = False
+    if not any(u.startswith("verus timed out") for u in out["undecided"]):
+        try:
+            os.makedirs(cdir, exist_ok=True)
+            with open(cpath + ".tmp", "w") as f:
+                json.dump(out, f)
+            os.replace(cpath + ".tmp", cpath)
+        except OSError:
+            pass
     if not keep:
         for p in (path, pathc):
             try:
